@@ -219,9 +219,12 @@ def twin_cleanup_rule(program, res, rule="C16-S3"):
         else:
             res.ok(rule, f"Pandas: every iteration of the clean-up loop ({n_paths} paths) removes `{lv} + {suffix!r}` or skips an equal-named key pair")
     if checked == 0:
+        suffix_vars = {st.targets[0].id for st in ast.walk(fn) if isinstance(st, ast.Assign) and len(st.targets) == 1 and isinstance(st.targets[0], ast.Name)
+                       and f"'{suffix}'" in unparse(st.value) and "merge(" not in unparse(st.value)}
         others = [st for st in ast.walk(fn) if isinstance(st, ast.stmt) and not isinstance(st, (ast.FunctionDef, ast.For, ast.If, ast.While))
-                  and f"'{suffix}'" in unparse(st) and ("drop" in unparse(st) or "del " in unparse(st) or ".loc[" in unparse(st))
-                  and "merge(" not in unparse(st) and "= res.loc[is_null" not in unparse(st)]
+                  and (f"'{suffix}'" in unparse(st) or any(isinstance(x, ast.Name) and x.id in suffix_vars for x in ast.walk(st)))
+                  and ("drop" in unparse(st) or "del " in unparse(st))
+                  and "merge(" not in unparse(st)]
         if others:
             res.abstain(rule, f"Pandas: the `<col>{suffix}` twins are removed outside a per-column loop (`{unparse(others[0])[:70]}`)",
                         "removal form not decided by the per-iteration path rule")
@@ -332,6 +335,16 @@ def _s3(program, res):
         raise AnalysisError("Pandas _natural_join_step: merge suffixes=('', <right suffix>) not found")
     fills = pat.find("_F.loc[_M, _C] = _F.loc[_M, _C + __S]", pj_node)
     fills = [(n, e) for (n, e) in fills if e["__S"] == repr(suffix)]
+    # the twin's name may also come out of a mapping built with the suffix:  for c, c_right in {c: c + SUFFIX …}.items()
+    twin_maps = {st.targets[0].id for st in ast.walk(pj_node) if isinstance(st, ast.Assign) and len(st.targets) == 1 and isinstance(st.targets[0], ast.Name)
+                 and isinstance(st.value, (ast.DictComp, ast.Dict)) and repr(suffix) in unparse(st.value)}
+    for loop in [l for l in ast.walk(pj_node) if isinstance(l, ast.For) and isinstance(l.target, ast.Tuple) and len(l.target.elts) == 2
+                 and isinstance(l.iter, ast.Call) and isinstance(l.iter.func, ast.Attribute) and l.iter.func.attr == "items"
+                 and isinstance(l.iter.func.value, ast.Name) and l.iter.func.value.id in twin_maps]:
+        cv, tv = [t.id for t in loop.target.elts if isinstance(t, ast.Name)]
+        for (n, e) in pat.find("_F.loc[_M, _C] = _F.loc[_M, _T]", loop):
+            if e["_C"] == cv and e["_T"] == tv:
+                fills.append((n, e))
     good_fill = None
     for (n, e) in fills:
         # the mask marks the nulls of the *left* column: _M = _F[_C].isnull()
